@@ -438,6 +438,10 @@ func fillScalar(r *rng, f *gField, v reflect.Value, wild bool) {
 	if wild && r.intn(6) == 0 {
 		alpha = "ab$,=_@\n"
 	}
+	if f.enc == "none" && r.intn(3) == 0 {
+		// no alphabet applies: any byte may be stored, including 8-bit ones and UTF-8 sequences
+		alpha = "a0\x80\xff\xc3\xa9\xe9\x00\x7f"
+	}
 	strLen := func() int {
 		if f.length >= 0 && r.intn(8) != 0 {
 			return f.length
@@ -655,4 +659,99 @@ func nestType(r *rng, gt *gType, maxDepth int) (out *gType, ok bool) {
 		return nil, false
 	}
 	return &gType{fs, t}, true
+}
+
+// genString writes a candidate input for Unmarshal directly from the layout (not through Marshal): the prefix, then
+// every field as a text of about its declared shape -- digits in the field's base for integers, texts of the declared
+// or array length (and one off it) for strings, byte slices and arrays, "key=" in front for parameters -- group runs
+// joined by commas, everything else by '$'; optional fields are sometimes left out.
+func genString(r *rng, gt *gType) string {
+	var frags []string
+	pre := ""
+	var run []string
+	flush := func() {
+		if len(run) > 0 {
+			frags = append(frags, strings.Join(run, ","))
+			run = nil
+		}
+	}
+	for _, f := range gt.fields {
+		if f.isPrefix() {
+			pre = lexPrefixes[r.intn(len(lexPrefixes))]
+			continue
+		}
+		if f.omit && r.intn(3) == 0 {
+			continue
+		}
+		bt := f.typ
+		for bt.Kind() == reflect.Ptr {
+			bt = bt.Elem()
+		}
+		n := 1 + r.intn(5)
+		if f.length >= 0 {
+			n = f.length
+		}
+		if bt.Kind() == reflect.Array {
+			n = bt.Len()
+			if f.length >= 0 && r.intn(2) == 0 {
+				n = f.length
+			}
+		}
+		switch r.intn(8) {
+		case 0:
+			n++
+		case 1:
+			if n > 0 {
+				n--
+			}
+		}
+		var text string
+		switch {
+		case isIntLike(bt) && bt != reflect.TypeOf(Hex16(0)):
+			base := f.base
+			if base < 2 || base > 36 {
+				base = 10
+			}
+			if bt.Kind() >= reflect.Uint && bt.Kind() <= reflect.Uint64 {
+				text = strconv.FormatUint(genUintFor(r, bt), base)
+			} else {
+				text = strconv.FormatInt(genIntFor(r, bt), base)
+			}
+			if f.length >= 0 {
+				for len(text) < f.length {
+					text = "0" + text
+				}
+			}
+		case bt == reflect.TypeOf(Hex16(0)):
+			text = fmt.Sprintf("%04x", r.intn(65536))
+		default:
+			alpha := classAlpha
+			if f.enc == "base64" {
+				alpha = "abcXYZ019+/"
+			}
+			if f.enc == "none" && r.intn(3) == 0 {
+				alpha = "a0\x80\xff\xc3\xa9\xe9"
+			}
+			text = r.str(n, alpha)
+		}
+		if f.param != "" {
+			text = f.param + "=" + text
+		}
+		if f.group {
+			run = append(run, text)
+			continue
+		}
+		flush()
+		if f.inline && len(frags) >= 0 {
+			// an inline field shares its fragment with the next field
+			frags = append(frags, text+"\x00inline")
+			continue
+		}
+		frags = append(frags, text)
+	}
+	flush()
+	out := strings.Join(frags, "$")
+	out = strings.ReplaceAll(out, "\x00inline$", "")
+	out = strings.ReplaceAll(out, "\x00inline", "")
+	return pre + out
 }
